@@ -134,11 +134,20 @@ func (c c10conc) objPath(srv, tok string) string {
 	if srv == "card" {
 		ext = ".vcf"
 	}
-	return c.colPath["c1"] + c.objName[tok] + ext
+	name, ok := c.objName[tok]
+	if !ok {
+		name = "n " + tok // the numbered objects of the large multiget
+	}
+	return c.colPath["c1"] + name + ext
 }
 func (c c10conc) objTok(srv, p string) string {
 	for _, t := range []string{"o1", "o2", "o3"} {
 		if c.objPath(srv, t) == p {
+			return t
+		}
+	}
+	if base := strings.TrimPrefix(p, c.colPath["c1"]+"n "); base != p {
+		if t := strings.TrimSuffix(strings.TrimSuffix(base, ".ics"), ".vcf"); c.objPath(srv, t) == p {
 			return t
 		}
 	}
